@@ -271,7 +271,8 @@ def body_stmt(draw, nm, opts, late, branch_targets, depth=0, in_repeat=False):
         es = [first] + draw(st.lists(value_expr(nm, allow_dot), min_size=0, max_size=3))
         return [{"k": "words", "es": es}]
     if k == "dword":
-        es = draw(st.lists(st.one_of(const_expr(nm), value_expr(nm, allow_dot) if opts.get("dword_addr", True) else const_expr(nm)), min_size=1, max_size=3))
+        es = draw(st.lists(st.one_of(const_expr(nm), value_expr(nm, allow_dot) if opts.get("dword_addr", True) else const_expr(nm)),
+                           min_size=0 if opts.get("empty_data", True) and draw(st.integers(0, 3)) == 0 else 1, max_size=3))
         return [{"k": "data", "d": "dword", "es": es}]
     if k == "byte":
         es = draw(st.lists(st.one_of(st.integers(-128, 255).map(lambda v: ("num", v)), const_expr(nm, 1, False).map(lambda e: ("bin", "&", e, ("num", 0o377)))),
